@@ -93,11 +93,18 @@ func trackerReplay(args []string) error {
 	_ = fs.String("work", "", "scratch directory (unused)")
 	impl := fs.String("impl", "real", "real: pkg/filetracker; reference: the harness' own interval list (self-test of the checker)")
 	maxBad := fs.Int("max-bad", 0, "stop after that many failing behaviours (0: the harness default); for investigation")
+	base := fs.Int64("base", 0, "refinement: abstract offset o is the byte range [base+o*scale, base+(o+1)*scale)")
+	scale := fs.Int64("scale", 1, "refinement: bytes per abstract offset")
 	_ = fs.Parse(args)
+	B, K := *base, *scale
+	if K < 1 {
+		K = 1
+	}
 	if *maxBad > 0 {
 		vutil.MaxBadBehaviours = *maxBad
 	}
 	res := vutil.NewResult("tracker/" + *impl)
+	res.Extra["base"], res.Extra["scale"] = B, K
 	run := func(i int, line []byte, r *vutil.BehResult) {
 		var steps []trStep
 		if err := json.Unmarshal(line, &steps); err != nil {
@@ -142,18 +149,33 @@ func trackerReplay(args []string) error {
 					Replay: replay})
 			}
 			panicked := vutil.Guard(r, j, "write", replay, func() {
-				t.VerifTrackWrite(st.O, st.N)
+				t.VerifTrackWrite(B+st.O*K, st.N*K)
 			})
 			if panicked {
 				return
 			}
-			for off := int64(0); off < nProbe; off++ {
-				expMod := st.M[off] == 1
-				bound := st.C[off]
-				for _, l := range lens {
-					if l < 1 {
+			type probe struct{ abs, conc, bound int64 }
+			var probes []probe
+			for a := int64(0); a < nProbe; a++ {
+				cb := st.C[a] * K // bytes from the first byte of the cell to the boundary (0: none ahead)
+				probes = append(probes, probe{a, B + a*K, cb})
+				if K > 1 {
+					last := probe{a, B + a*K + K - 1, 0}
+					if cb != 0 {
+						last.bound = cb - (K - 1)
+					}
+					probes = append(probes, last)
+				}
+			}
+			for _, pr := range probes {
+				off := pr.conc
+				expMod := st.M[pr.abs] == 1
+				bound := pr.bound
+				for _, l0 := range lens {
+					if l0 < 1 {
 						continue
 					}
+					l := l0 * K
 					var (
 						got int64
 						mut bool
